@@ -12,7 +12,8 @@
 //
 // globals: `name=<value>` joined by `,`, sorted by name; a name with a leading `*` is one of the
 // identifiers pre-seeded by extensions.Init.  value: n t f i<dec> d<16 hex bits>~<hex Inspect text>
-// (dNaN~.. for every NaN) s<hex> a[v,..] m[k:v,..] (M[ for *BigMap) F<hex name|->~<hex cache key>~<0|1: defined inside a function call (Env is a call frame)>
+// (dNaN~.. for every NaN) s<hex> a[v,..] m[k:v,..] (M[ for *BigMap) F<hex name|->~<hex cache key>~<0|1: defined inside a function call (Env is a call frame)>~<1|c|0: the printed
+// form parses back to the same tree / up to comments / not>
 // X<ext> E Q ?<type>.
 package main
 
@@ -81,7 +82,7 @@ func slDump(sb *strings.Builder, o object.Object, root *object.Environment, dept
 		if v.Name != nil {
 			name = hx(v.Name.Literal())
 		}
-		sb.WriteString("F" + name + "~" + hx(v.CacheKey) + "~" + b2s(v.Env != nil && v.Env != root && v.Env.Name() != ""))
+		sb.WriteString("F" + name + "~" + hx(v.CacheKey) + "~" + b2s(v.Env != nil && v.Env != root && v.Env.Name() != "") + "~" + slReparse(v))
 	case object.Extension:
 		sb.WriteString("X" + v.Name)
 	case object.Reference:
@@ -120,6 +121,46 @@ func slDump(sb *strings.Builder, o object.Object, root *object.Environment, dept
 			sb.WriteString("?" + o.Type().String())
 		}
 	}
+}
+
+// slFuncShape renders what the evaluator uses of a function: parameters, variadic flag, body.
+func slFuncShape(params []ast.Node, variadic bool, body *ast.Statements) string {
+	sb := &strings.Builder{}
+	for _, p := range params {
+		sb.WriteString(hx(p.Value().Literal()) + " ")
+	}
+	sb.WriteString(b2s(variadic) + " ")
+	dumpNode(sb, body)
+	return sb.String()
+}
+
+// slReparse: does the printed form of the function (the text SaveGlobals writes) parse back to the
+// function's own tree?  1 = yes, c = yes up to comment nodes, 0 = no.  (The front end only: C02's domain.)
+func slReparse(f object.Function) (res string) {
+	defer func() {
+		if r := recover(); r != nil {
+			res = "0"
+		}
+	}()
+	p := parser.New(lexer.New(f.Inspect()))
+	prog := p.ParseProgram()
+	if len(p.Errors()) > 0 || len(prog.Statements) != 1 {
+		return "0"
+	}
+	fl, ok := prog.Statements[0].(*ast.FunctionLiteral)
+	if !ok {
+		return "0"
+	}
+	a := slFuncShape(f.Parameters, f.Variadic, f.Body)
+	b := slFuncShape(fl.Parameters, fl.Variadic, fl.Body)
+	if a == b {
+		return "1"
+	}
+	strip := func(x string) string { return strings.ReplaceAll(x, " (cmt)", "") }
+	if strip(a) == strip(b) {
+		return "c"
+	}
+	return "0"
 }
 
 func slGlobals(s *eval.State) string {
@@ -216,6 +257,7 @@ func slEvalString(s *eval.State, code string) (failed bool) {
 func slLoadLines(saved string) (*eval.State, *bytes.Buffer, int) {
 	s, out := slNewState(0)
 	scanner := bufio.NewScanner(strings.NewReader(saved))
+	scanner.Buffer(nil, math.MaxInt32)
 	errs := 0
 	for scanner.Scan() {
 		if slEvalString(s, scanner.Text()) {
@@ -270,7 +312,10 @@ func saveloadRun(input string) string {
 	if !ok {
 		return "BAD"
 	}
+	s0, _ := slNewState(0)
+	fresh := slGlobals(s0)
 	s, out := slBuild(defs, 0)
+	numSet := s.VerifRootEnv().NumSet()
 	g := slGlobals(s)
 	saved, n := slSave(s)
 	sL, outL, errL := slLoadLines(saved)
@@ -298,7 +343,13 @@ func saveloadRun(input string) string {
 	if ans, err := slChild.ask(input); err == nil {
 		p := strings.Split(ans, ";")
 		if len(p) == 4 {
-			x = b2s(p[0] == hx(saved)) + b2s(p[1] == gW) + b2s(p[2] == hx(saved)) + b2s(p[3] == gL)
+			x = b2s(p[0] == hx(saved)) + b2s(p[1] == gW)
+			if numSet == 0 {
+				// repl.AutoSave skips the save when nothing was set: no file, nothing to load
+				x += b2s(p[2] == "none") + b2s(p[3] == fresh)
+			} else {
+				x += b2s(p[2] == hx(saved)) + b2s(p[3] == gL)
+			}
 		}
 	} else {
 		slChild = nil
